@@ -28,24 +28,6 @@ tvars == <<truth, cores, l, stack>>
 
 Empty == <<>>
 
-\* the projection logged by the harness agrees with the specification state of core c
-ViewOK(c, v) ==
-  /\ v.len = CLen(c)
-  /\ v.bytes = CBytes(c)
-  /\ v.contig = CContig(c)
-  /\ v.fork = 0
-  /\ v.writable = cores[c].writable
-  /\ v.held = cores[c].held
-  /\ v.beyond = <<>>      \* no index at or beyond the length is reported as held
-  /\ v.gerr = <<>>        \* every held block that was read came back
-  /\ v.pev = 0            \* reading held blocks emitted no event
-  /\ v.key = cores[c].key
-  /\ \A j \in 1..Len(v.blk) :
-       LET i == v.blk[j][1] IN
-       /\ CHas(c, i)
-       /\ v.blk[j][2] = RSize(Log(c), i)
-       /\ v.blk[j][3] = RCid(Log(c), i)
-
 \* C06: what a reader that knows only the JavaScript layout reconstructs from the four stores
 \* (records decoded by the harness through the templates of Layout, reader algorithm JsRead in
 \* Layout) is the state the API reports; and re-encoding the decoded frames through the templates
